@@ -2201,6 +2201,7 @@ void conn_check_update_check_list_state_for_ready (NiceAgent *agent,
 {
   GSList *i;
   guint valid = 0, nominated = 0;
+  CandidateCheckPair *best = NULL;
 
   g_assert (component);
 
@@ -2212,10 +2213,18 @@ void conn_check_update_check_list_state_for_ready (NiceAgent *agent,
 	++valid;
 	if (p->nominated == TRUE) {
           ++nominated;
+          if (best == NULL)
+            best = p;
 	}
       }
     }
   }
+
+  /* The selected pair may have gone (its socket was removed) while other
+   * valid nominated pairs are left: the best of them takes over, the
+   * pruning below works relative to the selected pair. */
+  if (nominated > 0 && component->selected_pair.local == NULL)
+    conn_check_update_selected_pair (agent, component, best);
 
   if (nominated > 0) {
     /* Only go to READY if no checks are left in progress. If there are
